@@ -1,0 +1,22 @@
+//go:build verif
+
+// Contracts for the deductive checker in /verif (comment-only; compiled only with -tags verif).
+package refsql
+
+// Listing / bulk-deleting by prefix must touch exactly the names that literally start with the prefix.
+// Every prefix becomes the condition  instr(name, ?) = 1  (exclusions: != 1) with the prefix itself bound to the
+// placeholder, unmodified. ASSUMED of SQLite (/verif/spec/sql.spec): instr(X, Y) = 1 iff X starts with Y, compared
+// byte for byte; LIKE, by contrast, gives % and _ a wildcard meaning and folds ASCII case.
+//@ func filterQuery
+//@   props C15
+//@   requires len(prefixes) <= 1048576 && len(notPrefixes) <= 1048576
+//@   ensures [C15] len(result1) == len(prefixes) + len(notPrefixes)
+//@   ensures [C15] forall(k, 0, len(prefixes), ifaceStr(result1[k]) == prefixes[k])
+//@   ensures [C15] forall(k, 0, len(notPrefixes), ifaceStr(result1[len(prefixes) + k]) == notPrefixes[k])
+//@   loop 1 invariant iter <= len(prefixes) && len(args) == iter && len(conds) == iter && fresh(conds) && fresh(args)
+//@   loop 1 invariant forall(k, 0, iter, ifaceStr(args[k]) == prefixes[k])
+//@   loop 1 invariant forall(k, 0, iter, conds[k] == "instr(name, ?) = 1")
+//@   loop 1 decreases len(prefixes) - iter
+//@   loop 2 invariant fresh(conds) && fresh(args) && iter <= len(notPrefixes) && len(args) == len(prefixes) + iter && forall(k, 0, len(prefixes), ifaceStr(args[k]) == prefixes[k]) && forall(k, 0, iter, ifaceStr(args[len(prefixes) + k]) == notPrefixes[k])
+//@   loop 2 invariant len(conds) >= iter && forall(k, 0, iter, conds[len(conds) - iter + k] == "instr(name, ?) != 1")
+//@   loop 2 decreases len(notPrefixes) - iter
